@@ -6,3 +6,7 @@ import Gleece.Properties.C04
 #print axioms Gleece.IR.unknown_scheme_no_spec
 #print axioms Gleece.IR.schemes_declared
 #print axioms Gleece.IR.enforce_airtight
+#print axioms Gleece.Reduce.effective_security
+#print axioms Gleece.Reduce.default_applies
+#print axioms Gleece.Reduce.effective_empty_iff
+#print axioms Gleece.Reduce.own_security_in_order
